@@ -581,6 +581,11 @@ func (ex *Exec) oblige(kind, label string, fr *frame, p token.Pos, ok *smt.Term)
 			st.FirstReason = "solver unknown/timeout"
 		}
 	}
+	if kind == "frame" {
+		// a write to protected memory does not stop a Go program: the path goes on with the write performed, so that
+		// what the mutation leads to later (a function leaking into the next Compile) is seen as well
+		return
+	}
 	if cb, isC := ok.ConstBool(); isC && !cb {
 		panic(pathEnd{kind: "panic", msg: kind + " " + label})
 	}
